@@ -19,27 +19,90 @@ fn model_specs(tier: Tier) -> Vec<Spec> {
     }
 }
 
+fn real_specs(tier: Tier) -> Vec<Spec> {
+    match tier {
+        Tier::Quick => {
+            let mut v = vec![gsym(2, 2, 3, 2)];
+            v.extend(all_seed_nbh(0, 0, 1));
+            v
+        }
+        Tier::Thorough => {
+            let mut v = vec![g(2, 2, 3, 2), g(1, 2, 3, 3), g(2, 2, 2, 3), g(2, 3, 3, 2), g(3, 2, 3, 2)];
+            v.extend(all_seed_nbh(1, 1, 2000));
+            v
+        }
+    }
+}
+
 pub fn run(ctx: &Ctx, property: &'static str) -> Outcome {
     let mut out = Outcome::new("model_checking");
-    let res = crate::pda::run_model_layer(ctx, property, &model_specs(ctx.tier), ctx.tier.pick(400.0, 3000.0));
-    if res.acc.self_check_errors.iter().any(|e| e.starts_with("reference self-check")) {
-        machinery_error(format!("{property}: {}", res.acc.self_check_errors.iter().find(|e| e.starts_with("reference self-check")).unwrap()));
+    let deep = ctx.tier == Tier::Thorough;
+    // ---- real-code layer (E3)
+    let real = crate::reallayer::run_layer(property, &real_specs(ctx.tier), deep, ctx.tier.pick(0, 1));
+    // ---- model layer (E2); C02 is decided on real code alone
+    let model = if property == "C02" { None } else { Some(crate::pda::run_model_layer(ctx, property, &model_specs(ctx.tier), ctx.tier.pick(400.0, 3000.0))) };
+    let mut notes: Vec<String> = vec![];
+    for e in real.acc.self_check_errors.iter().chain(model.iter().flat_map(|m| m.acc.self_check_errors.iter())) {
+        if e.starts_with("reference self-check") || e.starts_with("missing real observation") {
+            machinery_error(format!("{property}: {e}"));
+        }
+        notes.push(e.clone());
     }
-    let acc = res.acc;
-    let bound = acc.get("grammars with a bound model");
-    let unbound = acc.get("model unbound: emitted text not understood by the extractor") + acc.get("model unbound: driver loop differs from the modelled template");
-    out.cov("states", json!(acc.get("configurations").max(1)));
-    out.cov("transitions", json!(acc.get("token feeds").max(1)));
-    out.cov("traces_validated_against_impl", json!(0));
-    out.cov("model_bound", json!(unbound == 0 && bound > 0));
-    out.cov("grammars", json!(res.grammars));
-    out.cov("scopes", json!(res.scopes));
-    out.cov("exhaustive", json!(res.scopes.iter().all(|s| s["completed"].as_bool().unwrap_or(false))));
-    out.cov("histogram", json!(acc.counters));
-    out.cov("maxima", json!(acc.maxima));
-    out.cov("notes", json!(acc.self_check_errors));
-    out.cov("samples", json!(acc.samples));
-    out.violating_cases = acc.violating;
-    out.findings = acc.findings;
+    let validated = real.acc.get("model traces validated against the real parse");
+    let diverged = real.acc.get("model traces that diverge from the real parse");
+    let mut model_bound = false;
+    let mut scopes = real.scopes.clone();
+    let mut states = real.acc.get("real executions compared");
+    let mut transitions = real.results_runs;
+    if let Some(m) = &model {
+        let bound = m.acc.get("grammars with a bound model");
+        let unbound = m.acc.get("model unbound: emitted text not understood by the extractor") + m.acc.get("model unbound: driver loop differs from the modelled template");
+        model_bound = unbound == 0 && bound > 0 && diverged == 0 && validated > 0;
+        if model_bound {
+            states = m.acc.get("configurations").max(1);
+            transitions = m.acc.get("token feeds").max(1);
+        }
+        scopes.extend(m.scopes.iter().cloned().map(|mut s| {
+            s["layer"] = json!("model of the emitted parser (tables and reduce functions extracted from the emitted text)");
+            s
+        }));
+    }
+    out.cov("states", json!(states.max(1)));
+    out.cov("transitions", json!(transitions.max(1)));
+    out.cov("traces_validated_against_impl", json!(if property == "C02" { real.acc.get("real executions compared") } else { validated }));
+    out.cov("model_bound", json!(model_bound));
+    out.cov("model_divergences", json!(diverged));
+    out.cov("real_modules_compiled_and_run", json!(real.modules));
+    out.cov("real_parse_executions", json!(real.results_runs));
+    out.cov("real_layer_seconds", json!({"rustc": (real.compile_s * 10.0).round() / 10.0, "run": (real.run_s * 10.0).round() / 10.0}));
+    out.cov("scopes", json!(scopes));
+    out.cov("exhaustive", json!(scopes.iter().all(|s| s["completed"].as_bool().unwrap_or(false))));
+    out.cov("histogram_real_layer", json!(real.acc.counters));
+    out.cov("maxima_real_layer", json!(real.acc.maxima));
+    let mut samples = real.acc.samples.clone();
+    out.violating_cases = real.acc.violating;
+    out.findings = real.acc.findings;
+    if let Some(m) = model {
+        out.cov("histogram_model_layer", json!(m.acc.counters));
+        out.cov("maxima_model_layer", json!(m.acc.maxima));
+        samples.extend(m.acc.samples.iter().cloned());
+        if model_bound || !m.acc.findings.is_empty() && diverged == 0 {
+            // an unbound model is not believed: its findings are dropped and the real layer decides alone
+            out.violating_cases += m.acc.violating;
+            out.findings.extend(m.acc.findings);
+        } else if !m.acc.findings.is_empty() {
+            notes.push(format!("{} model-layer findings were dropped because the model is not bound to the code in this run", m.acc.findings.len()));
+        }
+    }
+    if samples.is_empty() {
+        samples.push(json!("no sample"));
+    }
+    out.cov("samples", json!(samples));
+    out.cov("notes", json!(notes));
+    out.cov("explanation", json!("states = parser configurations explored over the input tries (model layer when it is bound, else real executions), transitions = token feeds; traces_validated_against_impl = (grammar, word) runs in which the model's trace equals the observation of the rustc-compiled real parse"));
+    out.assumptions = vec![
+        "reference: canonical LR(1) driver, cross-checked against Earley on every explored word".into(),
+        "rustc 1.95 compiles the emitted modules (opt-level 0, overflow checks and debug assertions on)".into(),
+    ];
     out
 }
